@@ -319,7 +319,8 @@ class C03(Base):
         if rng.random() < 0.3:
             case["config"]["-ms"] = rng.choice([250, 500, 900])
         case["executions"] = [gen_exec(rng) for _ in range(2)]
-        if rng.random() < 0.008:
+        w = getattr(rng, "world_index", None)
+        if (w % 97 == 5) if w is not None else rng.random() < 0.008:        # placed, so that every tier meets one early
             case = big_world(rng)
             case["executions"] = [gen_exec(rng, profile=rng.choice(["jitter", "reverse-finish", "one-stalled"]), stream_p=0.0)]
             case["executions"][0]["mode"] = rng.choice(["best", "separate"])
@@ -948,7 +949,8 @@ class C09(Base):
             ex = gen_exec(rng, mode=mode, profile=p, stream_p=0.15)
             exs.append(ex)
         case["executions"] = exs
-        if rng.random() < 0.012:
+        w = getattr(rng, "world_index", None)
+        if (w % 41 == 3) if w is not None else rng.random() < 0.012:
             case = big_world(rng)
             mode = rng.choice(["best", "separate"])
             case["executions"] = [gen_exec(rng, mode=mode, profile=p, stream_p=0.0) for p in ("serial", "reverse-finish", "jitter")]
